@@ -42,7 +42,7 @@ Proof.
   intros Hl HL H1 H2 Hh V1. unfold b32_verify_checksum in *. apply N.eqb_eq in V1.
   destruct (N.eqb_spec (b32_polymod (b32_hrp_expand hrp ++ d2)) K) as [V2|]; [exfalso|reflexivity].
   rewrite b32_polymod_eq in V1, V2. unfold polymod_raw in V1, V2. rewrite pm_app in V1, V2.
-  refine (detects_4 b32_gens bech32_pm_shift bech32_pm_symbits b32_gens_small b32_low_indep b32_window
+  refine (detects_4 b32_gens bech32_pm_shift bech32_pm_symbits b32_gens_small b32_low_indep b32_mul b32_window
             b32_certificate _ d1 d2 Hl HL H1 H2 Hh _). rewrite V1, V2. reflexivity.
 Qed.
 
@@ -92,15 +92,15 @@ Proof.
 Qed.
 
 (* up to three substitutions are detected unconditionally: neither within one checksum constant (above) nor
-   across the two (coset certificate) *)
-Lemma segwit_data_len72 rest prog : from_base32 5 8 (drop_last segwit_cklen rest) = Ok prog ->
-  (segwit_cklen <= length rest)%nat -> (length prog <= segwit_prog_max)%nat -> (S (length rest) <= segwit_window)%nat.
+   across the two (anchored coset certificates, Lemmas/Bech32CertX.v) *)
+Lemma v0_rest_len rest prog : from_base32 5 8 (drop_last segwit_cklen rest) = Ok prog ->
+  (segwit_cklen <= length rest)%nat -> In (length prog) segwit_v0_lens -> length rest = 38%nat \/ length rest = 58%nat.
 Proof.
-  intros F Hl Hp. apply from_base32_length in F. destruct F as [F _]. rewrite drop_last_length in F.
-  change segwit_prog_max with 40%nat in Hp. change segwit_cklen with 6%nat in *. unfold segwit_window.
-  set (n := (length rest - 6)%nat) in *. assert (length rest = n + 6)%nat by lia.
-  assert (n <= 65)%nat; [|lia]. destruct (le_lt_dec n 65) as [|Hgt]; [assumption|exfalso].
-  assert (41 <= 5 * n / 8)%nat by (apply Nat.div_le_lower_bound; lia). lia.
+  intros F Hl Hp. apply from_base32_length in F. destruct F as [F Fm]. rewrite drop_last_length in F, Fm.
+  change segwit_cklen with 6%nat in *. change segwit_v0_lens with [20%nat; 32%nat] in Hp.
+  set (k := (length rest - 6)%nat) in *. assert (Hk : length rest = (k + 6)%nat) by lia. rewrite Hk.
+  pose proof (Nat.div_mod (5 * k) 8 ltac:(lia)) as DM.
+  destruct Hp as [E|[E|[]]]; rewrite F in E; [left|right]; lia.
 Qed.
 
 Theorem segwit_detects_3 hrp s1 s2 v1 p1 n : segwit_decode hrp s1 = Ok (v1, p1) ->
@@ -110,20 +110,36 @@ Proof.
   destruct (Bool.bool_dec (v1 =? 0) (v2 =? 0)) as [Hv|Hv].
   - exact (segwit_detects_4 hrp s1 s2 v1 p1 v2 p2 n D1 (data_corrupted_weaken 3 4 _ _ _ _ ltac:(lia) C) D2 Hv).
   - destruct C as (h & t1 & t2 & E1 & E2 & Hsep & Hlen & _ & Hh).
-    apply segwit_decode_ok_iff in D1. destruct D1 as (_ & _ & r1 & L1 & S1 & Hl1 & V1 & F1 & (Hp1 & _)).
-    apply segwit_decode_ok_iff in D2. destruct D2 as (_ & _ & r2 & L2 & S2 & _ & V2 & _).
+    apply segwit_decode_ok_iff in D1. destruct D1 as (_ & _ & r1 & L1 & S1 & Hl1 & V1 & F1 & (_ & _ & Hz1)).
+    apply segwit_decode_ok_iff in D2. destruct D2 as (_ & _ & r2 & L2 & S2 & Hl2 & V2 & F2 & (_ & _ & Hz2)).
     assert (Hs : ~ In segwit_sep bech32_charset) by (apply (sep_stable segwit_sep); right; left; reflexivity).
     rewrite L1 in E1. apply split_at_last in E1; [|apply (sep_not_in_syms bech32_charset segwit_sep Hs); exact S1|exact Hsep].
     destruct E1 as [<- <-]. rewrite L2 in E2. apply app_inv_head in E2.
     assert (E2' : t2 = map bsym (v2 :: r2)) by (inversion E2; reflexivity). subst t2.
     rewrite !map_length in *. rewrite hamming_bsym in Hh by assumption.
-    assert (HL : (length (v1 :: r1) <= segwit_window)%nat) by (cbn [length]; eapply segwit_data_len72; eauto; apply Hp1).
+    cbn [length] in Hlen. assert (Hlen' : length r1 = length r2) by lia.
+    assert (Hne : v1 <> v2) by (intros ->; apply Hv; reflexivity).
+    cbn [hamming] in Hh. destruct (N.eqb_spec v1 v2) as [|_]; [contradiction|].
+    assert (Hh' : (hamming r1 r2 <= 2)%nat) by lia.
+    apply Forall_cons_iff in S1, S2. destruct S1 as [Sv1 Sr1]. destruct S2 as [Sv2 Sr2].
     unfold b32_verify_checksum in V1, V2. apply N.eqb_eq in V1, V2.
     rewrite b32_polymod_eq in V1, V2. unfold polymod_raw in V1, V2. rewrite pm_app in V1, V2.
-    refine (certificateX_sound b32_gens bech32_pm_shift bech32_pm_symbits b32_coset_diff segwit_window
-              b32_coset_certificate _ (v1 :: r1) (v2 :: r2) Hlen HL S1 S2 Hh _).
-    rewrite V1, V2. unfold segwit_const, b32_coset_diff. change segwit_ver_bech32 with 0.
-    destruct (v1 =? 0), (v2 =? 0); try (exfalso; apply Hv; reflexivity); [reflexivity|apply N.lxor_comm].
+    (* the version-0 side fixes the length *)
+    assert (HL : length r1 = 38%nat \/ length r1 = 58%nat).
+    { destruct (N.eqb_spec v1 0) as [Z1|Z1].
+      - eapply v0_rest_len; eauto.
+      - destruct (N.eqb_spec v2 0) as [Z2|Z2]; [|exfalso; apply Hv; reflexivity].
+        rewrite Hlen'. eapply v0_rest_len; eauto. }
+    assert (HD : N.lxor (segwit_const v1) (segwit_const v2) = b32_coset_diff).
+    { unfold segwit_const, b32_coset_diff. change segwit_ver_bech32 with 0.
+      destruct (v1 =? 0), (v2 =? 0); try (exfalso; apply Hv; reflexivity); [reflexivity|apply N.lxor_comm]. }
+    destruct HL as [HL|HL].
+    + refine (certificateV_sound b32_gens bech32_pm_shift bech32_pm_symbits b32_coset_diff 38
+                b32_coset_certificate_38 _ v1 v2 r1 r2 HL ltac:(congruence) Hne Sv1 Sv2 Sr1 Sr2 Hh' _).
+      rewrite V1, V2. exact HD.
+    + refine (certificateV_sound b32_gens bech32_pm_shift bech32_pm_symbits b32_coset_diff 58
+                b32_coset_certificate_58 _ v1 v2 r1 r2 HL ltac:(congruence) Hne Sv1 Sv2 Sr1 Sr2 Hh' _).
+      rewrite V1, V2. exact HD.
 Qed.
 
 Corollary segwit_detects_3_err hrp s1 s2 v1 p1 n : segwit_decode hrp s1 = Ok (v1, p1) ->
